@@ -172,7 +172,10 @@ impl<C: Send + Sync + 'static> LiveServer<C> {
             bind_address: "127.0.0.1:0".parse().unwrap(),
             default_request_body_max_bytes: opts.default_body_max,
             default_handler_task_mode: opts.mode,
-            log_headers: vec![],
+            // every live server logs the request headers the checks play with: the per-request logger
+            // then runs over the same hostile values the extractors see
+            log_headers: ["content-type", "content-length", "transfer-encoding", "host", "connection", "upgrade", "sec-websocket-key", "sec-websocket-version",
+                "x-api-version", "x-request-id", "x-marker", "expect", "user-agent", "accept"].iter().map(|s| s.to_string()).collect(),
         };
         let server = {
             let _g = rt.enter();
